@@ -130,11 +130,13 @@ Fixpoint drive (bdec : list byte -> list byte -> option (list byte)) (o : dopts)
       else drive bdec o f s' (zdrop (r_consumed r) data) ns' caps' (acc ++ r_out r) (pos + r_consumed r)
   | _, _, _ => VMore
   end.
+(* (the frame is valid with ALL checksums verified: under skipChecksums the code - and the model -
+   still verifies the checksum of compressed blocks, see C08_example_skip_asymmetry) *)
 Definition C08_chunking_independent_full_statement : Prop :=
   forall bdec skip data ns caps content rest,
     bytes_ok data = true ->
     Forall (fun n => 1 <= n) ns -> Forall (fun c => 1 <= c) caps ->
-    frame_decode bdec skip [] data = Some (content, rest) ->
+    frame_decode bdec false [] data = Some (content, rest) ->
     (* enough pieces to get through: the verdict is the specification's *)
     (exists k, drive bdec (mkO false skip false) k dctx_init data ns caps [] 0 <> VMore) ->
     exists k, drive bdec (mkO false skip false) k dctx_init data ns caps [] 0
@@ -176,4 +178,16 @@ Example C08_example_oneshot :
   let '(s1, r1) := decompress spec_decode dctx_init (frame ++ [1; 2; 3]) 100 (mkO false false false) in
   (r_ret r1, r_consumed r1, r_out r1) = (0, zlen frame, [97; 98; 99; 97; 98; 99; 97; 98; 99; 100; 101; 102; 103; 104; 120; 121])
   /\ frame_decode spec_decode false [] (frame ++ [1; 2; 3]) = Some (r_out r1, [1; 2; 3]).
+Proof. vm_compute. split; reflexivity. Qed.
+
+(* skipChecksums does not skip the block checksum of COMPRESSED blocks (lz4frame.c:1874-1886 has no
+   skipChecksum test), while it does for uncompressed blocks: same frame shape, block checksum
+   damaged; the real library behaves the same way (reproduced in the harness corpus) *)
+Example C08_example_skip_asymmetry :
+  let o := mkO false true false in
+  let comp := [4; 34; 77; 24; 112; 64; 173; 6; 0; 0; 0; 80; 97; 98; 99; 100; 101; 91; 7; 108; 118; 0; 0; 0; 0] in
+  let raw := [4; 34; 77; 24; 112; 64; 173; 5; 0; 0; 128; 97; 98; 99; 100; 101; 139; 241; 56; 151; 0; 0; 0; 0] in
+  r_ret (snd (decompress spec_decode dctx_init comp 100 o)) = - FD_ERR_blockChecksum_invalid /\
+  (r_ret (snd (decompress spec_decode dctx_init raw 100 o)), r_out (snd (decompress spec_decode dctx_init raw 100 o)))
+    = (0, [97; 98; 99; 100; 101]).
 Proof. vm_compute. split; reflexivity. Qed.
